@@ -491,6 +491,26 @@ def run(ctx) -> None:
            "get_environment returns normally although neither the selected nor the default platform defines the environment",
            construct="neither platform defines it => raise FlowIREnvironmentUnknown")
 
+    # ... and what decides 'is this the default platform' is the platform the lookup was made FOR (the local handed to
+    # get_platform_environment), not the platform that happens to be active on the object: environmentWithName falls back with an explicit
+    # platform='default' while a custom platform is active - a test of self._platform then answers {} instead of raising (seed C17-14)
+    sel_names = {k.value.id for v in match.assigned_value(ge, PENV) if isinstance(v, ast.Call) for k in v.keywords
+                 if k.arg == "platform" and isinstance(k.value, ast.Name)}
+    for tn in [n for n in c2.nodes if n.kind == "test" and n.ast is not None]:
+        cp_ = match.compare_parts(tn.ast)
+        if not cp_:
+            continue
+        for a_, b_ in ((cp_[0], cp_[2]), (cp_[2], cp_[0])):
+            if (dotted(b_) or "").endswith("LabelDefault"):
+                ok_ = isinstance(a_, ast.Name) and a_.id in sel_names
+                ctx.ob("C17.R2-branch-table", tn.ast, ok_,
+                       "the default-platform test of get_environment looks at the platform of this lookup (%s)" % short(a_, 30) if ok_ else
+                       "get_environment decides whether a missing environment is an error by %s, not by the platform this lookup is for (%s): a "
+                       "fallback lookup for platform='default' made while another platform is active returns an empty environment instead of "
+                       "raising - an environment that neither the selected nor the default platform defines resolves to the system variables"
+                       % (short(a_, 40), ", ".join(sorted(sel_names)) or "its platform argument"),
+                       construct="get_environment: <selected platform> != default")
+
     # ---------------- R3 -------------------------------------------------------------------------------
     envdefs = match.assigned_value(ge, GENV)
     ok = any(isinstance(v, ast.Name) and v.id == PDEF for v in envdefs)
